@@ -602,6 +602,8 @@ def _elementwise(x, fn, name):
     if isinstance(x, Sym):
         if x.is_const():
             return float(fn(float(x.const_value())))
+        if name in ("cos", "sin"):
+            return x._transc(name)  # registered angle -> algebraic pair, else OutOfReach
         if name == "exp":
             return sym_exp(x)
         if name == "log":
